@@ -32,7 +32,7 @@ type cnode struct {
 	Kind  string          `json:"kind"`
 	Name  string          `json:"name"`
 	Op    string          `json:"opcode"`
-	Value string          `json:"value"`
+	Value cvalue          `json:"value"`
 	Inner []*cnode        `json:"inner"`
 	Ref   *cnode          `json:"referencedDecl"`
 	Loc   json.RawMessage `json:"loc"`
@@ -42,6 +42,14 @@ type cnode struct {
 			Line   int `json:"line"`
 		} `json:"begin"`
 	} `json:"range"`
+}
+
+// cvalue: clang writes the value of an IntegerLiteral as a string and that of a CharacterLiteral as a number.
+type cvalue string
+
+func (v *cvalue) UnmarshalJSON(b []byte) error {
+	*v = cvalue(strings.Trim(string(b), "\""))
+	return nil
 }
 
 func clangFunc(dir, file, fn string) (*cnode, error) {
